@@ -86,6 +86,10 @@ class MyPyAstVisitor:
 
         # Imports
         for import_ in node.imports:
+            # An import inside a function or a class does not bind a name of the module, so it cannot reexport anything
+            if not import_.is_top_level:
+                continue
+
             if isinstance(import_, mp_nodes.Import):
                 for import_name, import_alias in import_.ids:
                     qualified_imports.append(
